@@ -19,7 +19,8 @@ def run(tier):
     fam = [("aggregates", AGG, 3, 700, 6000, 2), ("shapes", ["ints", "bool", "str", "rec", "enum", "opt", "list", "copymut", "generic"], 2, 500, 4000, 1)]
     return semlib.run_sem_check(
         PID, tier, fam,
-        extra_cases=[("match", semlib.match_cases()), ("eq", semlib.eq_cases()), ("aggcopy", semlib.aggcopy_cases())],
+        extra_cases=[("match", semlib.match_cases()), ("eq", semlib.eq_cases()), ("aggcopy", semlib.aggcopy_cases()),
+                     ("flist", semlib.flist_cases())],
         rule=("cases = recorded native executions of seeded random programs over random record/enum declarations with "
               "copy / mutate / observe-all-leaves statements; distinct = distinct (source, inputs); non-trivial = source "
               "longer than one statement"),
